@@ -28,6 +28,8 @@
   `Witness.moc_read_write_i32_partial`).
 -/
 import HealSparse.Lemmas.Moc
+import HealSparse.Lemmas.ApiMoc
+import HealSparse.Props.C04
 namespace HS
 namespace C17
 
@@ -318,5 +320,461 @@ theorem moc_read_write_i32_fails_order15 :
 
 end Witness
 
+/-! ## Driver level: `moc` / `mocread` (Model/Dispatch.lean `opMoc`, `opMocread`)
+
+The theorems above are about `mocWrite` / `mocRead` on a pixel list.  The ones below are about the
+two protocol operations, in any world satisfying the global invariant `World.Good` (every
+reachable world does: `reachable_moc`, `reachable_moc_ok`), for a map of ANY kind found under a
+name.  Helpers: Lemmas/ApiMoc.lean.
+
+  driver_moc_answer        (1a) the answer of `moc`; ValueError (not an empty list) on a map
+                                without valid pixels; which column is stored
+  driver_moc_cells         (1b) sorted; orders within [covord, spord]; disjoint; EXACT cover of the
+                                valid pixels; maximal; no four siblings above the coverage order
+  driver_mocread_order, driver_mocread_order_eq_spord
+                           (2a) the order the reader chooses: the largest order among the cells
+  driver_mocread_answer, driver_mocread_empty
+                           (2b) the answer of `mocread`: ValueError exactly for `covord >` that order
+  driver_mocread_map       (2c) the boolean map bound
+  driver_moc_round_trip    (2d) valid in `m` at `p` ⇔ valid in the map read at the ancestor of `p`
+  driver_moc_protocol, driver_moc_same_valid
+                           (3)  `moc`, `mocread`, `valid`, `nvalid` as protocol steps
+  uniq_coding_exact, uniq_log_argument
+                           (4)  every order; where the library's float64 `log2` breaks (NEW finding)
+
+Error kind: for `covord >` the reader's order the model answers ValueError (`apiMakeEmpty`); the
+library's `make_empty(nside_coverage > nside_sparse)` has no such check and fails with an
+accidental `TypeError` (a fractional array size) — an error in both. -/
+
+section driver
+open ApiMoc
+open C02 (validSet)
+
+/-- the string the driver answers for a ValueError -/
+theorem errLine_value : errLine .value = "err ValueError" := by decide
+
+/-- "valid" is the map kind's own notion (`Kind.valid`, Model/Value.lean): a plain map (numeric
+    with any sentinel, boolean) and a bit-packed map — value ≠ sentinel; a wide mask — some byte
+    ≠ 0; a record map — primary field ≠ sentinel.  `moc` accepts a map of EVERY kind. -/
+theorem valid_is_kind_valid (m : MapObj) : m.vc.valid = m.kind.valid m.sent := rfl
+
+/-- **(1a) what `moc n f=F` answers**, in any good world (every reachable world is one:
+    `reachable_moc`), for a map of ANY kind found under `n` (views included): `err ValueError`
+    when the map has no valid pixel — NOT an empty list: the library takes `np.max` of an empty
+    array — and nothing is stored; otherwise the UNIQ column `mocOf m` is stored under `F`
+    (default name `f`; an earlier column of that name is replaced) and printed in ascending order. -/
+theorem driver_moc_answer {w : World} (hw : w.Good) {a : Args} {n : String} {rest : List String}
+    {m : MapObj} (ha : a.pos = n :: rest) (hg : w.get? n = some m) :
+    stepArgs w "moc" a =
+      if validSet m.c m.vc m.st = [] then (w, "err ValueError")
+      else ({ w with mocs := (a.getD "f" "f", mocOf m) ::
+                w.mocs.filter (·.1 != a.getD "f" "f") }, showNats (mocOf m)) := by
+  have hok := hw.get hg
+  rw [← errLine_value]
+  exact opMoc_eq ha hg hok.1 hok.2.1.blankInvalid
+
+/-- **(1b) the cells written** for a map `m` that is `Ok`: the column is strictly ascending;
+    every code is `4·4^o + i` of a cell with `covord ≤ o ≤ spord` and `i < 12·4^o`; distinct
+    cells are disjoint; a fine pixel lies under a cell EXACTLY when it is a valid pixel of `m`
+    (no invalid pixel covered, no valid pixel missed, nothing out of range); every cell is fully
+    valid and no ancestor of it down to the coverage order is; above the coverage order no four
+    sibling cells are all present; the column is empty exactly for a map without valid pixels
+    (which `moc` refuses). -/
+theorem driver_moc_cells {m : MapObj} (h : m.Ok) :
+    (mocOf m).Pairwise (· < ·) ∧
+    (∀ u ∈ mocOf m, m.covord ≤ uniqOrder u ∧ uniqOrder u ≤ m.spord ∧
+      uniqIndex u < 12 * 4 ^ uniqOrder u ∧ u = uniqOf (uniqOrder u) (uniqIndex u)) ∧
+    (∀ u₁ ∈ mocOf m, ∀ u₂ ∈ mocOf m, u₁ ≠ u₂ →
+      ¬ ∃ x, cellCovers m.spord u₁ x ∧ cellCovers m.spord u₂ x) ∧
+    (∀ p, (∃ u ∈ mocOf m, cellCovers m.spord u p) ↔ p < m.npix ∧ m.vc.valid (m.abs p) = true) ∧
+    (∀ u ∈ mocOf m, (∀ x, cellCovers m.spord u x → m.vc.valid (m.abs x) = true) ∧
+      ∀ o', m.covord ≤ o' → o' < uniqOrder u →
+        ¬ ∀ x, x >>> (2 * (m.spord - o')) = uniqIndex u >>> (2 * (uniqOrder u - o')) →
+          x < m.npix ∧ m.vc.valid (m.abs x) = true) ∧
+    (∀ u ∈ mocOf m, m.covord < uniqOrder u →
+      ¬ ∀ k, k < 4 → uniqOf (uniqOrder u) (4 * (uniqIndex u / 4) + k) ∈ mocOf m) ∧
+    (mocOf m = [] ↔ ∀ p, p < m.npix → m.vc.valid (m.abs p) = false) := by
+  have hnd := validSet_nodup m
+  have hlt := validSet_lt m h.1
+  have hmem : ∀ p, p ∈ validSet m.c m.vc m.st ↔ p < m.npix ∧ m.vc.valid (m.abs p) = true :=
+    fun p => mem_validSet
+  refine ⟨moc_sorted _ _ _ _, ?_, ?_, ?_, ?_, ?_, ?_⟩
+  · intro u hu
+    obtain ⟨h1, h2, h3⟩ := moc_order_ge_cov h.1.1 hnd hlt hu
+    refine ⟨h1, h2, h3, ?_⟩
+    unfold uniqOf uniqIndex
+    have : 4 * 4 ^ uniqOrder u ≤ u := by
+      obtain ⟨p, hp, e, he, rfl⟩ := (mem_mocWrite_iff _ _ hnd u).1 hu
+      have := he.1
+      rw [uniqOrder_cellU (hlt p hp) (by omega)]
+      unfold cellU uniqOf
+      exact Nat.le_add_right _ _
+    omega
+  · intro u₁ h₁ u₂ h₂ hne
+    exact moc_disjoint hnd hlt h₁ h₂ hne
+  · intro p
+    rw [← hmem]
+    exact moc_cover hnd hlt p
+  · intro u hu
+    obtain ⟨g1, g2⟩ := moc_maximal hnd hlt hu
+    refine ⟨fun x hx => ((hmem x).1 (g1 x hx)).2, fun o' h1 h2 hall => g2 o' h1 h2 ?_⟩
+    intro x hx
+    exact (hmem x).2 (hall x hx)
+  · intro u hu ho
+    exact moc_no_four_siblings hnd hlt hu ho
+  · unfold mocOf
+    rw [mocWrite_eq_nil_iff hnd]
+    constructor
+    · intro hnil p hp
+      cases hv : m.vc.valid (m.abs p) with
+      | false => rfl
+      | true =>
+        have := (hmem p).2 ⟨hp, hv⟩
+        rw [hnil] at this; cases this
+    · intro hall
+      apply List.eq_nil_iff_forall_not_mem.2
+      intro p hp
+      obtain ⟨h1, h2⟩ := (hmem p).1 hp
+      rw [hall p h1] at h2; cases h2
+
+/-- **(2a) the order the reader chooses**: the LARGEST order among the cells of the column — not
+    the sparse order of the map the column came from, which the file does not record (the model
+    has no `MOCORDER`; the library's reader ignores it too).  For the column of a map with a
+    valid pixel it lies between the coverage order and the sparse order, and is attained. -/
+theorem driver_mocread_order {m : MapObj} (h : m.Ok) (hne : mocOf m ≠ []) :
+    m.covord ≤ (mocRead (mocOf m)).1 ∧ (mocRead (mocOf m)).1 ≤ m.spord ∧
+    (∃ u ∈ mocOf m, uniqOrder u = (mocRead (mocOf m)).1) ∧
+    ∀ u ∈ mocOf m, uniqOrder u ≤ (mocRead (mocOf m)).1 := by
+  have hnd := validSet_nodup m
+  have hlt := validSet_lt m h.1
+  obtain ⟨u, hu, he⟩ := mocRead_fst_attained hne
+  have ho := moc_order_ge_cov h.1.1 hnd hlt hu
+  exact ⟨by omega, by omega, ⟨u, hu, he⟩, fun u hu => uniqOrder_le_mocRead_fst hu⟩
+
+/-- … it is the sparse order itself exactly when some cell could not be merged at all: there is
+    a valid pixel whose three siblings are not all valid, or the map has `covord = spord` -/
+theorem driver_mocread_order_eq_spord {m : MapObj} (h : m.Ok) (hne : mocOf m ≠ []) :
+    (mocRead (mocOf m)).1 = m.spord ↔
+      ∃ p, p < m.npix ∧ m.vc.valid (m.abs p) = true ∧
+        (m.covord = m.spord ∨ ∃ x, x >>> 2 = p >>> 2 ∧ ¬ (x < m.npix ∧ m.vc.valid (m.abs x) = true)) := by
+  have hnd := validSet_nodup m
+  have hlt := validSet_lt m h.1
+  have hmem : ∀ p, p ∈ validSet m.c m.vc m.st ↔ p < m.npix ∧ m.vc.valid (m.abs p) = true :=
+    fun p => mem_validSet
+  obtain ⟨_, hle, ⟨u0, hu0, he0⟩, hall⟩ := driver_mocread_order h hne
+  have hcov := h.1.1
+  constructor
+  · intro heq
+    rw [heq] at he0
+    obtain ⟨p, hp, e, he, rfl⟩ := (mem_mocWrite_iff _ _ hnd u0).1 hu0
+    have hen := he.1
+    rw [uniqOrder_cellU (hlt p hp) (by omega)] at he0
+    have he00 : e = 0 := by omega
+    subst he00
+    obtain ⟨hp1, hp2⟩ := (hmem p).1 hp
+    refine ⟨p, hp1, hp2, ?_⟩
+    by_cases hcs : m.covord = m.spord
+    · exact .inl hcs
+    · right
+      -- one level up is allowed but not full
+      have hnf : ¬ Full (validSet m.c m.vc m.st) 1 (p >>> (2 * 1)) := by
+        intro hf
+        have := he.2.2 1 (by omega) hf
+        omega
+      unfold Full at hnf
+      have : ∃ x, x >>> (2 * 1) = p >>> (2 * 1) ∧ x ∉ validSet m.c m.vc m.st := by
+        apply Classical.byContradiction
+        intro hno
+        apply hnf
+        intro x hx
+        apply Classical.byContradiction
+        intro hx'
+        exact hno ⟨x, hx, hx'⟩
+      obtain ⟨x, hx1, hx2⟩ := this
+      exact ⟨x, hx1, fun hv => hx2 ((hmem x).2 hv)⟩
+  · rintro ⟨p, hp1, hp2, hor⟩
+    have hp := (hmem p).2 ⟨hp1, hp2⟩
+    have hcell := isCellOf_lev hnd hp (m.spord - m.covord)
+    have hu := (mem_mocWrite_iff m.spord m.covord hnd _).2 ⟨p, hp, _, hcell, rfl⟩
+    have hlev : lev exactEq (validSet m.c m.vc m.st) (m.spord - m.covord) p = 0 := by
+      rcases hor with hcs | ⟨x, hx1, hx2⟩
+      · have := hcell.1; omega
+      · apply Classical.byContradiction
+        intro hne0
+        have hf := hcell.2.1
+        have h1 : Full (validSet m.c m.vc m.st) 1 (p >>> (2 * 1)) :=
+          full_down_le (by omega) hf
+        exact hx2 ((hmem x).1 (h1 x hx1))
+    have := hall _ hu
+    rw [hlev, uniqOrder_cellU (hlt p hp) (by omega)] at this
+    omega
+
+/-- the cells of a column written by `moc` are cells of the sphere -/
+theorem mocOf_cells {m : MapObj} (h : m.Ok) : ∀ u ∈ mocOf m, uniqIndex u < 12 * 4 ^ uniqOrder u :=
+  fun u hu => ((driver_moc_cells h).2.1 u hu).2.2.1
+
+/-- **(2b) what `mocread r=R f=F covord=c` answers** when `F` names a stored column `U` whose
+    cells are cells of the sphere (every column `moc` stores is one): `err ValueError` exactly when
+    `c` exceeds the largest order among the cells (`make_empty` refuses `nside_coverage >
+    nside_sparse`), else `ok`, binding `R` (default `tmp`) to `mocMap c U`.  Without such a
+    column, or without `covord=`: `bad-op:no-such-map`. -/
+theorem driver_mocread_answer {w : World} {a : Args} {U : List Nat} {c : Nat}
+    (hf : (w.mocs.find? (·.1 == a.getD "f" "f")).map (·.2) = some U)
+    (hc : a.nat? "covord" = some c) (hU : ∀ u ∈ U, uniqIndex u < 12 * 4 ^ uniqOrder u) :
+    stepArgs w "mocread" a =
+      if (mocRead U).1 < c then (w, "err ValueError")
+      else (w.bind (a.getD "r" "tmp") (mocMap c U), "ok") := by
+  rw [← errLine_value]
+  exact opMocread_eq hf hc hU
+
+/-- … an EMPTY column (the driver never stores one: `moc` refuses a map without valid pixels)
+    would be read as a map of sparse order 0 without valid pixels, so only `covord=0` is accepted -/
+theorem driver_mocread_empty {w : World} {a : Args} {c : Nat}
+    (hf : (w.mocs.find? (·.1 == a.getD "f" "f")).map (·.2) = some [])
+    (hc : a.nat? "covord" = some c) :
+    stepArgs w "mocread" a =
+      if 0 < c then (w, "err ValueError") else (w.bind (a.getD "r" "tmp") (mocMap c []), "ok") := by
+  have := driver_mocread_answer hf hc (fun u hu => nomatch hu)
+  rw [mocRead_nil] at this
+  exact this
+
+/-- **(2c) the map read**, for `c ≤` the largest order `mo` among the cells: `Ok`, plain
+    boolean with sentinel `False`, orders `(c, mo)`, owning, no cached count; pixel `y` (at order
+    `mo`) is valid exactly when it lies in one of the cells -/
+theorem driver_mocread_map {U : List Nat} {c : Nat} (hle : c ≤ (mocRead U).1)
+    (hU : ∀ u ∈ U, uniqIndex u < 12 * 4 ^ uniqOrder u) :
+    (mocMap c U).Ok ∧ (mocMap c U).covord = c ∧ (mocMap c U).spord = (mocRead U).1 ∧
+    (mocMap c U).kind = .plain .bool ∧ (mocMap c U).sent = .bool false ∧
+    (mocMap c U).view = none ∧ (mocMap c U).cache = none ∧
+    ∀ y, y < 12 * 4 ^ (mocRead U).1 →
+      ((mocMap c U).vc.valid ((mocMap c U).abs y) = true ↔
+        ∃ u ∈ U, y >>> (2 * ((mocRead U).1 - uniqOrder u)) = uniqIndex u) := by
+  obtain ⟨h1, _, h3⟩ := mocMap_spec hle hU
+  refine ⟨h1, rfl, rfl, rfl, rfl, rfl, rfl, fun y hy => ?_⟩
+  rw [h3 y hy, mem_mocRead_snd]
+
+/-- **(2d) write, then read**: for a map `m` with a valid pixel, reading its column with any
+    `c ≤ mo` (in particular with the map's own coverage order: `covord ≤ mo` always) gives a map
+    `R` at sparse order `mo ≤ spord` such that a fine pixel `p` is valid in `m` EXACTLY when its
+    ancestor at order `mo` is valid in `R`; conversely a pixel of `R` is valid exactly when all —
+    equivalently any — of its `4^(spord-mo)` descendants are valid in `m` -/
+theorem driver_moc_round_trip {m : MapObj} (h : m.Ok) {c : Nat}
+    (hle : c ≤ (mocRead (mocOf m)).1) :
+    (∀ p, p < m.npix →
+      (m.vc.valid (m.abs p) = true ↔
+        (mocMap c (mocOf m)).vc.valid
+          ((mocMap c (mocOf m)).abs (p >>> (2 * (m.spord - (mocRead (mocOf m)).1)))) = true)) ∧
+    (∀ y, y < 12 * 4 ^ (mocRead (mocOf m)).1 →
+      ((mocMap c (mocOf m)).vc.valid ((mocMap c (mocOf m)).abs y) = true ↔
+        ∀ x, x >>> (2 * (m.spord - (mocRead (mocOf m)).1)) = y →
+          x < m.npix ∧ m.vc.valid (m.abs x) = true)) := by
+  have hnd := validSet_nodup m
+  have hlt := validSet_lt m h.1
+  have hmem : ∀ p, p ∈ validSet m.c m.vc m.st ↔ p < m.npix ∧ m.vc.valid (m.abs p) = true :=
+    fun p => mem_validSet
+  have hmo : (mocRead (mocOf m)).1 ≤ m.spord := (moc_read_write (minOrd := m.covord) hnd hlt).1
+  have hrt : ∀ x, x ∈ validSet m.c m.vc m.st ↔
+      x >>> (2 * (m.spord - (mocRead (mocOf m)).1)) ∈ (mocRead (mocOf m)).2 :=
+    (moc_read_write (minOrd := m.covord) hnd hlt).2
+  obtain ⟨_, _, hv⟩ := mocMap_spec hle (mocOf_cells h)
+  have hnp : m.npix = 12 * 4 ^ m.spord := ApiDegrade.cfgOf_npix h.1.1
+  have hanc : ∀ p, p < m.npix →
+      p >>> (2 * (m.spord - (mocRead (mocOf m)).1)) < 12 * 4 ^ (mocRead (mocOf m)).1 := by
+    intro p hp
+    rw [hnp] at hp
+    have := shr_lt_of_lt hp (Nat.sub_le m.spord (mocRead (mocOf m)).1)
+    rw [show m.spord - (m.spord - (mocRead (mocOf m)).1) = (mocRead (mocOf m)).1 from by
+      have : (mocRead (mocOf m)).1 ≤ m.spord := hmo
+      omega] at this
+    exact this
+  constructor
+  · intro p hp
+    rw [hv _ (hanc p hp)]
+    constructor
+    · intro hval; exact (hrt p).1 ((hmem p).2 ⟨hp, hval⟩)
+    · intro hy; exact ((hmem p).1 ((hrt p).2 hy)).2
+  · intro y hy
+    rw [hv y hy]
+    constructor
+    · intro hyS x hx
+      exact (hmem x).1 ((hrt x).2 (by rw [hx]; exact hyS))
+    · intro hall
+      -- `y` has a descendant: `y <<< 2d`
+      have hx : (y <<< (2 * (m.spord - (mocRead (mocOf m)).1))) >>>
+          (2 * (m.spord - (mocRead (mocOf m)).1)) = y := by
+        rw [Nat.shiftLeft_shiftRight]
+      have := (hrt _).1 ((hmem _).2 (hall _ hx))
+      rw [hx] at this
+      exact this
+
+/-- **(3a) the round trip as protocol steps**: `moc n f=F`, then `mocread r=R f=F covord=c` with
+    `c ≤ mo` answers `ok`, and then `valid R` prints the ascending list of the pixels the reader
+    marked and `nvalid R` their number; `valid n` prints the ascending valid pixels of `m`, and
+    the two counts are related by the factor `4^(spord - mo)`.  (`a₀ … a₃`: the parsed arguments
+    of the four lines.) -/
+theorem driver_moc_protocol {w : World} (hw : w.Good) {a₀ a₁ a₂ : Args} {n R : String}
+    {rest₀ rest₂ : List String} {m : MapObj} {c : Nat}
+    (ha₀ : a₀.pos = n :: rest₀) (hg : w.get? n = some m)
+    (hne : validSet m.c m.vc m.st ≠ [])
+    (hf : a₁.getD "f" "f" = a₀.getD "f" "f") (hc : a₁.nat? "covord" = some c)
+    (hR : a₁.getD "r" "tmp" = R) (hle : c ≤ (mocRead (mocOf m)).1) (ha₂ : a₂.pos = R :: rest₂) :
+    let w₁ := (stepArgs w "moc" a₀).1
+    let w₂ := (stepArgs w₁ "mocread" a₁).1
+    (stepArgs w "moc" a₀).2 = showNats (mocOf m) ∧
+    (stepArgs w₁ "mocread" a₁).2 = "ok" ∧
+    w₂.get? R = some (mocMap c (mocOf m)) ∧
+    (stepArgs w₂ "valid" a₂).2 =
+      showList toString ((mocRead (mocOf m)).2.map fun p => ((p : Nat) : Int)) ∧
+    (stepArgs w "valid" a₀).2 =
+      showList toString ((validSet m.c m.vc m.st).map fun p => ((p : Nat) : Int)) ∧
+    (stepArgs w₂ "nvalid" a₂).2 = toString (mocRead (mocOf m)).2.length ∧
+    (validSet m.c m.vc m.st).length =
+      (mocRead (mocOf m)).2.length * 4 ^ (m.spord - (mocRead (mocOf m)).1) := by
+  have hok := hw.get hg
+  have hcells := mocOf_cells hok
+  intro w₁ w₂
+  have e₁ : stepArgs w "moc" a₀ = ({ w with mocs := ((a₀.getD "f" "f", mocOf m) ::
+      w.mocs.filter (·.1 != a₀.getD "f" "f")) }, showNats (mocOf m)) := by
+    rw [driver_moc_answer hw ha₀ hg, if_neg hne]
+  have hw₁ : w₁ = { w with mocs := ((a₀.getD "f" "f", mocOf m) ::
+      w.mocs.filter (·.1 != a₀.getD "f" "f")) } := by show (stepArgs w "moc" a₀).1 = _; rw [e₁]
+  have hfind : (w₁.mocs.find? (·.1 == a₁.getD "f" "f")).map (·.2) = some (mocOf m) := by
+    rw [hw₁, hf]; exact find_mocs_cons _ _ _
+  have e₂ : stepArgs w₁ "mocread" a₁ = (w₁.bind R (mocMap c (mocOf m)), "ok") := by
+    rw [driver_mocread_answer hfind hc hcells, if_neg (by omega), hR]
+  have hw₂ : w₂ = w₁.bind R (mocMap c (mocOf m)) := by
+    show (stepArgs w₁ "mocread" a₁).1 = _; rw [e₂]
+  have hgR : w₂.get? R = some (mocMap c (mocOf m)) := by
+    rw [hw₂]; exact get?_bind_self _ _ _ rfl
+  obtain ⟨hRok, _, _⟩ := mocMap_spec hle hcells
+  have hvs := validSet_mocMap hle hcells
+  refine ⟨by rw [e₁], by rw [e₂], hgR, ?_, ?_, ?_, ?_⟩
+  · show (opValid w₂ a₂).2 = _
+    rw [opValid_eq ha₂ hgR hRok.1 hRok.2.1.blankInvalid, hvs]
+  · show (opValid w a₀).2 = _
+    rw [opValid_eq ha₀ hg hok.1 hok.2.1.blankInvalid]
+  · show (opNvalid w₂ a₂).2 = _
+    rw [opNvalid_eq ha₂ hgR rfl (fun hk => nomatch hk) hRok.1 hRok.2.1.blankInvalid, hvs]
+  · exact length_read_write (validSet_nodup m) (validSet_lt m hok.1)
+
+/-- **(3b)** when the reader's order is the sparse order of the map (`driver_mocread_order_eq_spord`
+    says when), the map read has EXACTLY the valid pixels of the source: `valid R` and `valid n`
+    print the same line, `nvalid` the same number -/
+theorem driver_moc_same_valid {m : MapObj} (h : m.Ok)
+    (hmo : (mocRead (mocOf m)).1 = m.spord) :
+    (mocRead (mocOf m)).2 = validSet m.c m.vc m.st := by
+  have hnd := validSet_nodup m
+  have hlt := validSet_lt m h.1
+  obtain ⟨_, hrt⟩ := moc_read_write (minOrd := m.covord) hnd hlt
+  refine sorted_ext_nat (mocRead_snd_sorted _) (validSet_sorted _ _ _) fun x => ?_
+  have := hrt x
+  unfold mocOf at hmo
+  rw [hmo, Nat.sub_self, Nat.mul_zero, Nat.shiftRight_zero] at this
+  exact this.symm
+
+/-! ### the same along any protocol history -/
+
+/-- every reachable world is good, so (1a) holds after any history -/
+theorem reachable_moc (lines : List String) {a : Args} {n : String} {rest : List String}
+    {m : MapObj} (ha : a.pos = n :: rest) (hg : (runLines lines).get? n = some m) :
+    stepArgs (runLines lines) "moc" a =
+      if validSet m.c m.vc m.st = [] then (runLines lines, "err ValueError")
+      else ({ runLines lines with mocs := (a.getD "f" "f", mocOf m) ::
+                (runLines lines).mocs.filter (·.1 != a.getD "f" "f") }, showNats (mocOf m)) :=
+  driver_moc_answer (Good.runLines lines) ha hg
+
+/-- … and the map found there is `Ok`, so (1b), (2) and (3) apply to it -/
+theorem reachable_moc_ok (lines : List String) {n : String} {m : MapObj}
+    (hg : (runLines lines).get? n = some m) : m.Ok :=
+  C04.reachable_get_ok lines n m hg
+
+/-! ### (4) high orders -/
+
+/-- **the UNIQ coding `4·4^o + i` is injective and decodes correctly for EVERY order**: the
+    model computes `uniqOrder` with the exact integer `Nat.log2` on unbounded naturals — no 2^32
+    (F44) and no 2^53 limit.  See the note below for what the library does. -/
+theorem uniq_coding_exact {o o' p p' : Nat} (h : p < 12 * 4 ^ o) (h' : p' < 12 * 4 ^ o') :
+    (uniqOrder (uniqOf o p) = o ∧ uniqIndex (uniqOf o p) = p) ∧
+    (uniqOf o p = uniqOf o' p' → o = o' ∧ p = p') :=
+  ⟨uniq_decode_encode h, uniqOf_inj h h'⟩
+
+/-- where the exactness of `log2` matters: the argument `uniq // 4` of the logarithm ranges over
+    `[4^o, 4^(o+1))`, and for the last pixels of the sphere it is within a few units of the next
+    power of two, `2^(2o+2)` (for the very last pixel: one below it) -/
+theorem uniq_log_argument {o p : Nat} (h : p < 12 * 4 ^ o) :
+    4 ^ o ≤ uniqOf o p / 4 ∧ uniqOf o p / 4 < 2 ^ (2 * o + 2) ∧
+    uniqOf o (12 * 4 ^ o - 1) / 4 = 2 ^ (2 * o + 2) - 1 := by
+  have e : 2 ^ (2 * o + 2) = 4 * 4 ^ o := by
+    rw [Nat.pow_add, ← four_pow]; omega
+  have hpos : 0 < 4 ^ o := Nat.pow_pos (by decide)
+  unfold uniqOf
+  rw [e]
+  omega
+
+/-! NOTE (library, NEW finding; the model is exact here and `moc_read_write` holds for every
+order).  `_read_moc_fits` evaluates `floor(np.log2(uniq // 4))` in float64.  By
+`uniq_log_argument` the argument comes within a few units of `2^(2o+2)`; from order 24 on
+(`2o+2 ≥ 50`) the float64 logarithm of such a number rounds UP to exactly `2o+2`, the order is
+decoded as `o+1` and the index goes negative.  Reproduced on the library (97 s): nside_coverage
+4096, nside_sparse 2^24, the single valid pixel `12·4^24 − 1`; `write_moc` writes the correct
+UNIQ 4503599627370495 but `MOCORDER = 25` (the writer's header line uses the same float
+logarithm), and reading the file raises `IndexError: index -13510798815002625 is out of bounds`.
+Affected pixels (the reader's formula evaluated with numpy): the last 8 pixels of the sphere at
+order 24, 44 at 25, 180 at 26, 720 at 27, 2880 at 28, 11520 at order 29; orders ≤ 23 are exact.
+Model/Moc.lean states the assumption ("`np.log2` … exact floor … true for uniq < 2^50"). -/
+
+example : uniqOrder (uniqOf 29 (12 * 4 ^ 29 - 1)) = 29 ∧
+    uniqIndex (uniqOf 29 (12 * 4 ^ 29 - 1)) = 12 * 4 ^ 29 - 1 :=
+  (uniq_coding_exact (o' := 0) (p' := 0) (by decide) (by decide)).1
+example : uniqOf 24 (12 * 4 ^ 24 - 1) / 4 = 2 ^ 50 - 1 := (uniq_log_argument (p := 0) (by decide)).2.2
+
+/-! ### non-vacuity: protocol histories (evaluated by the compiler: the kernel runs neither the
+string parser nor `Std.HashMap`) -/
+
+/-- the answers of a history -/
+def answers (h : List String) : List String :=
+  (h.foldl (fun (ws : World × List String) l => ((step ws.1 l).1, ws.2 ++ [(step ws.1 l).2])) ({}, [])).2
+
+-- an int32 map with sentinel 7 at orders (0, 2): the order-1 cell 1 (pixels 16–19) is full, pixel
+-- 3 holds the sentinel (invalid), so the order-1 cell 0 is not.  `moc` prints the ascending column
+-- (cell (1,4) = 20, then order-2 pixels), `mocread covord=0` gives a boolean map at order 2 with the
+-- same `valid` line and the same `nvalid` as the source.
+#guard answers ["cfg m kind=plain dtype=i4 covord=0 spord=2 sentinel=7",
+    "upd m pix=100,5,16,17,18,19,0,1,2,3 vals=1,1,1,1,1,1,1,1,1,7",
+    "moc m f=F", "mocread r=R f=F covord=0", "valid R", "valid m", "nvalid R", "nvalid m", "info R"]
+  == ["ok", "ok", "20,64,65,66,69,164", "ok", "0,1,2,5,16,17,18,19,100", "0,1,2,5,16,17,18,19,100",
+      "9", "9", "kind=plain:b1 covord=0 spord=2 sentinel=F"]
+
+-- a boolean map whose only valid pixels fill coverage pixel 1: the column is the single order-0
+-- cell `4·4^0 + 1 = 5`, the map read has sparse order 0 (< the source's 1), one valid pixel
+-- standing for 4, and `covord=1` is refused
+#guard answers ["cfg m kind=plain dtype=b1 covord=0 spord=1", "upd m pix=4,5,6,7 val=T",
+    "moc m f=F", "mocread r=R f=F covord=0", "valid R", "valid m", "nvalid R", "nvalid m", "info R",
+    "mocread r=Q f=F covord=1"]
+  == ["ok", "ok", "5", "ok", "1", "4,5,6,7", "1", "4", "kind=plain:b1 covord=0 spord=0 sentinel=F",
+      "err ValueError"]
+
+-- the empty map: ValueError, nothing stored
+#guard answers ["cfg m kind=plain dtype=f8 covord=1 spord=2", "moc m f=F", "mocread r=R f=F covord=0"]
+  == ["ok", "err ValueError", "bad-op:no-such-map"]
+
+-- every kind is accepted: a wide mask (a zero row is invalid), a record map (validity of the
+-- primary field), a view of a record field, a bit-packed map
+#guard answers ["cfg m kind=wide maxbits=16 covord=0 spord=1", "upd m pix=0,9 vals=b3.1,b0.0",
+    "moc m f=F", "valid m"] == ["ok", "ok", "16", "0"]
+#guard answers ["cfg m kind=rec covord=0 spord=1 fields=i4,f8 primary=0", "upd m pix=3,9 vals=r4;1,r6;3",
+    "moc m f=F", "single m field=1 r=v", "moc v f=G", "mocread r=R f=G covord=1", "valid R"]
+  == ["ok", "ok", "19,25", "ok", "19,25", "ok", "3,9"]
+#guard answers ["cfg p kind=packed covord=0 spord=2", "upd p pix=4,5,6,7,40 val=T", "moc p f=F",
+    "mocread r=R f=F covord=0", "valid R", "valid p", "nvalid R", "nvalid p"]
+  == ["ok", "ok", "17,104", "ok", "4,5,6,7,40", "4,5,6,7,40", "5", "5"]
+
+-- the hypotheses of `driver_moc_cells` / `driver_moc_round_trip` are satisfiable
+example : WFApi.okAnd (apiMakeEmpty 0 2 (.plain (.int 32 true)) (some (.num 7 0)) [] >>= fun e =>
+      apiUpdate e "replace" [100, 5, 16, 17, 18, 19, 3] (some (List.replicate 6 (.num 1 0) ++ [.num 7 0])) false)
+    (fun m => decide m.Ok && decide (validSet m.c m.vc m.st = [5, 16, 17, 18, 19, 100])) = true := by
+  decide +kernel
+
+end driver
 end C17
 end HS
